@@ -617,6 +617,7 @@ func checkC19(r *mc.Report, thorough bool) {
 	}
 	p.Cases(2*65536, 2*65536)
 	p.Done()
+	checkC19RR(r, thorough)
 	r.Assume("transports deliver whole packets per Read when the buffer is large enough (the documented contract of the RTU port); net.Pipe for TCP")
 	r.Assume("TCP carries no checksum: only truncations and transaction-id mismatches must be rejected there")
 }
